@@ -38,6 +38,9 @@ impl Property for C18 {
         let mut rep = RunReport::default();
         let nkeys = *src.pick(&[2usize, 1, 5, 40, 400, 12]);
         let depth = *src.pick(&[8usize, 2, 4]);
+        // now and then a tree deeper than any plausible built-in cap
+        let depth = if src.chance(1, 12) { 14 } else { depth };
+        if depth > 12 { rep.probe("merkle_depth_over_12"); }
         let nrep = 2 + src.below(2) as usize;
         let mut writers: Vec<ShardReplicaState> = (0..nrep).map(|i| ShardReplicaState::new(ReplicaId::new(i as u64 + 1), ConsistencyLevel::Eventual)).collect();
         let mut deltas: Vec<ReplicationDelta> = Vec::new();
